@@ -164,12 +164,16 @@ def run(prog):
     # grow re-homes with the same function
     gr = prog.find1(name="grow", self_adt=T, unit="rsdd-lib")
     homes = []
-    for cs in gr.terms.calls:
-        if cs.callee.name == "propagate":
-            homes.append(strip(cs.args[-1]))
+    fam = [gr] + [g for g in prog.lib_fns if g.npath.startswith(gr.npath + "::{closure")]
+    for g in fam:   # the re-insertion may sit in a closure of an iterator chain
+        for cs in g.terms.calls:
+            if cs.callee.name == "propagate":
+                homes.append(strip(cs.args[-1]))
     errs = []
     for h in homes:
-        ok = h[0] == "bin" and h[1] == "Rem" and "hash" in show(h[2]) and ("cap" in show(h[3]))
+        ok = h[0] == "bin" and h[1] == "Rem" and ("hash" in show(h[2]) or any(x == ("param", 2) for x in mir.subterms(h[2]))) \
+            and ("cap" in show(h[3]) or strip(h[3])[0] == "upvar"
+                                                                               or "next_power_of_two" in show(h[3]))
         if not ok:
             errs.append("grow re-homes at %s, not at hash %% cap" % show(h))
         else:
